@@ -1,13 +1,17 @@
 /-
   Props/C17.lean — C17: concurrent edits to separate parts of a document commute after rebasing.
-  Proved for pairs of replace steps (the steps every replace-family operation, split and join emit);
-  pairs involving mark / replace-around steps are covered by the correspondence run and the
-  convergence search (with the known finding "mark step vs. parent-retyping replace", DESIGN.md).
-  Helper lemmas: Proofs/Commute.lean.
+  Proved for pairs of replace steps (the steps every replace-family operation, split and join emit),
+  for a replace step against any mark / node-mark / attr step (add-mark steps *after* the replaced
+  range under the visible guard `ParentStable`: the known finding "mark step vs. parent-retyping
+  replace", DESIGN.md), and for two markup steps on disjoint tokens.  Pairs involving
+  replace-around steps: rebasing (`rebase_markup_not_dropped_around`) only; convergence is covered
+  by the correspondence run and the search.  "Each application succeeds" is a hypothesis throughout.
+  Helper lemmas: Proofs/Commute.lean, Proofs/CommuteMarkup.lean.
 -/
 import PM.Step
 import Proofs.StepToks
 import Proofs.Commute
+import Proofs.CommuteMarkup
 namespace PM.C17
 open PM
 
@@ -121,5 +125,296 @@ theorem outside_not_deleted (f t : Nat) (sl : Slice) (b : Bool) (p : Nat) (a : I
         = { pos := (p : Int) + (sl.size - ((t : Int) - f)) } :=
       mapResult_one_after _ _ _ _ a (by omega) (by omega)
     rw [e]; exact ⟨deleted_zero _, deletedAfter_zero _⟩
+
+/-! ### markup steps: rebasing
+
+  `Step.posSpan` = the positions a mark step (`from`, `to`) or a node-mark / attr step (`pos`, `pos`)
+  carries; `Step.mapPos g` = the same step with `g` applied to them (Proofs/CommuteMarkup.lean). -/
+
+/-- **a markup step strictly outside a replace step's range is not dropped**, and its mapped
+    positions are the unchanged ones (before the range) resp. the shifted ones (after it) -/
+theorem rebase_markup_not_dropped (st : Step) (lo hi : Nat) (hsp : st.posSpan = some (lo, hi))
+    (hle : lo ≤ hi) (f t : Nat) (sl : Slice) (b : Bool) (hft : f ≤ t) :
+    (hi < f → st.map (Step.replace f t sl b).getMap = some st) ∧
+    (t < lo → st.map (Step.replace f t sl b).getMap =
+      some (st.mapPos (fun p => ((p : Int) + (sl.size - ((t : Int) - f))).toNat))) := by
+  constructor
+  · intro h
+    have := markup_map_shift st lo hi hsp hle (Step.replace f t sl b).getMap 0
+      (fun p a hp => by
+        rw [Int.add_zero]
+        exact mapResult_one_before _ _ _ _ a (by rcases hp with rfl | rfl <;> omega))
+    rw [this, Step.mapPos_id _ _ (fun p => by simp)]
+  · intro h
+    exact markup_map_shift st lo hi hsp hle (Step.replace f t sl b).getMap _
+      (fun p a hp => mapResult_one_after _ _ _ _ a (by rcases hp with rfl | rfl <;> omega) (by omega))
+
+/-- the same over a replace-around step's two ranges `[f, gf)` and `[gt, t)`: before both, strictly
+    inside the kept gap, after both -/
+theorem rebase_markup_not_dropped_around (st : Step) (lo hi : Nat) (hsp : st.posSpan = some (lo, hi))
+    (hle : lo ≤ hi) (f t gf gt : Nat) (sl : Slice) (ins : Nat) (b : Bool)
+    (hg : f ≤ gf ∧ gf ≤ gt ∧ gt ≤ t) :
+    let m := (Step.replaceAround f t gf gt sl ins b).getMap
+    (hi < f → st.map m = some st) ∧
+    (gf < lo → hi < gt → st.map m =
+      some (st.mapPos (fun p => ((p : Int) + ((ins : Int) - ((gf : Int) - f))).toNat))) ∧
+    (t < lo → st.map m =
+      some (st.mapPos (fun p => ((p : Int) + ((ins : Int) - ((gf : Int) - f)) +
+        (sl.size - ins - ((t : Int) - gt))).toNat))) := by
+  intro m
+  refine ⟨fun h => ?_, fun h1 h2 => ?_, fun h => ?_⟩
+  · have := markup_map_shift st lo hi hsp hle m 0
+      (fun p a hp => by
+        rw [Int.add_zero]
+        exact mapResult_two_before _ _ _ _ _ _ _ a (by rcases hp with rfl | rfl <;> omega))
+    rw [this, Step.mapPos_id _ _ (fun p => by simp)]
+  · exact markup_map_shift st lo hi hsp hle m _
+      (fun p a hp => mapResult_two_mid _ _ _ _ _ _ _ a
+        (by rcases hp with rfl | rfl <;> omega) (by omega) (by rcases hp with rfl | rfl <;> omega))
+  · have := markup_map_shift st lo hi hsp hle m
+      (((ins : Int) - ((gf : Int) - f)) + (sl.size - ins - ((t : Int) - gt)))
+      (fun p a hp => by
+        rw [← Int.add_assoc]
+        exact mapResult_two_after _ _ _ _ _ _ _ a
+          (by rcases hp with rfl | rfl <;> omega) (by omega)
+          (by rcases hp with rfl | rfl <;> omega) (by omega))
+    rw [this]
+    congr 2
+    funext p
+    omega
+
+example : (Step.attr 7 "level" "2").posSpan = some (7, 7) ∧
+    (Step.addMark 7 9 ⟨0, []⟩).mapPos (· + 3) = .addMark 10 12 ⟨0, []⟩ := by decide
+
+/-! ### markup steps: convergence with a replace step -/
+
+theorem docs_eq_of_toks (dab dba : Node) (ty : TypeId) (a : Attrs) (m : Marks) (k1 k2 : List Node)
+    (h1 : dab = .elem ty a m k1) (h2 : dba = .elem ty a m k2)
+    (htoks : ftoks dab.kids = ftoks dba.kids)
+    (hn1 : fnorm dab.kids = true) (hn2 : fnorm dba.kids = true) : dab = dba := by
+  subst h1 h2
+  simp only [Node.kids] at htoks hn1 hn2
+  rw [ftoks_inj _ _ hn1 hn2 htoks]
+
+/-- the roots of the four documents of a replace-vs-markup square -/
+theorem square_roots (S : Schema) (d da db dab dba : Node) (f t : Nat) (sl : Slice) (b : Bool)
+    (M M' : Step) (plo phi plo' phi' : Nat)
+    (hsp' : M'.posSpan = some (plo', phi'))
+    (ha : S.apply (.replace f t sl b) d = .ok da)
+    (hab : S.apply M' da = .ok dab) (hba : S.apply (.replace f t sl false) db = .ok dba)
+    (hb : S.apply M d = .ok db) (hsp : M.posSpan = some (plo, phi)) :
+    ∃ ty a m k1 k2, dab = .elem ty a m k1 ∧ dba = .elem ty a m k2 := by
+  obtain ⟨ty, a, m, k, ka, rfl, rfl⟩ := apply_replace_elem S d da f t sl b ha
+  obtain ⟨ty2, a2, m2, k2, kb, e, rfl⟩ := apply_markup_root S _ db M plo phi hsp hb
+  cases e
+  obtain ⟨ty3, a3, m3, k3, kab, e, rfl⟩ := apply_markup_root S _ dab M' plo' phi' hsp' hab
+  cases e
+  obtain ⟨ty4, a4, m4, k4, kba, e, rfl⟩ := apply_replace_elem S _ dba f t sl false hba
+  cases e
+  exact ⟨_, _, _, _, _, rfl, rfl⟩
+
+theorem posSpan_mapPos (st : Step) (g : Nat → Nat) (lo hi : Nat) (h : st.posSpan = some (lo, hi)) :
+    (st.mapPos g).posSpan = some (g lo, g hi) := by
+  cases st <;> simp [Step.posSpan] at h <;> obtain ⟨rfl, rfl⟩ := h <;> rfl
+
+/-- **a replace step and a node-mark or attr step on a token strictly outside the replaced range**
+    (`pos < f ∨ t < pos`): whenever all four applications succeed, both orders give the same token
+    sequence, hence (normal form) the same document.  No guard: only the addressed token changes
+    and its new value depends on that token alone. -/
+theorem commute_replace_nodeStep (S : Schema) (d da db dab dba : Node) (f t : Nat) (sl : Slice)
+    (b : Bool) (pos : Nat) (A A' R' : Step) (hA : NodeStepAt pos A) (hout : pos < f ∨ t < pos)
+    (ha : S.apply (.replace f t sl b) d = .ok da) (hb : S.apply A d = .ok db)
+    (hA' : A.map (Step.replace f t sl b).getMap = some A')
+    (hR' : (Step.replace f t sl b).map A.getMap = some R')
+    (hab : S.apply A' da = .ok dab) (hba : S.apply R' db = .ok dba) :
+    ftoks dab.kids = ftoks dba.kids ∧
+    (fnorm dab.kids = true → fnorm dba.kids = true → dab = dba) := by
+  have hsp : A.posSpan = some (pos, pos) := by
+    rcases hA with ⟨m, rfl⟩ | ⟨m, rfl⟩ | ⟨n, v, rfl⟩ <;> rfl
+  have hto : A.touch = some (pos, pos + 1) := by
+    rcases hA with ⟨m, rfl⟩ | ⟨m, rfl⟩ | ⟨n, v, rfl⟩ <;> rfl
+  have hfn : ∀ p q tok, markupFn S A p tok = markupFn S A q tok := by
+    rcases hA with ⟨m, rfl⟩ | ⟨m, rfl⟩ | ⟨n, v, rfl⟩ <;> intro p q tok <;> rfl
+  have key : ∃ g, A' = A.mapPos g ∧ R' = .replace f t sl false ∧ ftoks dab.kids = ftoks dba.kids := by
+    rcases hout with h | h
+    · obtain ⟨e1, e2, e3⟩ := commute_replace_markup_before S d da db dab dba f t sl b A A' R' pos pos
+        hsp (Nat.le_refl _) h ha hb hA' hR' hab hba
+      exact ⟨id, by rw [e1]; exact (Step.mapPos_id _ id (fun _ => rfl)).symm, e2, e3⟩
+    · obtain ⟨e1, e2, e3⟩ := commute_replace_markup_after S d da db dab dba f t sl b A A' R' pos pos
+        hsp (Nat.le_refl _) h ha hb hA' hR' hab hba (pos + 1) hto (fun i tok _ _ _ => hfn _ _ _)
+      exact ⟨_, e1, e2, e3⟩
+  obtain ⟨g, e1, e2, e3⟩ := key
+  refine ⟨e3, fun hn1 hn2 => ?_⟩
+  subst e1 e2
+  obtain ⟨ty, a, m, k1, k2, r1, r2⟩ := square_roots S d da db dab dba f t sl b A _ pos pos _ _
+    (posSpan_mapPos A g pos pos hsp) ha hab hba hb hsp
+  exact docs_eq_of_toks dab dba ty a m k1 k2 r1 r2 e3 hn1 hn2
+
+/-- replace step vs. attr step -/
+theorem commute_replace_attr (S : Schema) (d da db dab dba : Node) (f t : Nat) (sl : Slice)
+    (b : Bool) (pos : Nat) (name value : String) (A' R' : Step) (hout : pos < f ∨ t < pos)
+    (ha : S.apply (.replace f t sl b) d = .ok da) (hb : S.apply (.attr pos name value) d = .ok db)
+    (hA' : (Step.attr pos name value).map (Step.replace f t sl b).getMap = some A')
+    (hR' : (Step.replace f t sl b).map (Step.attr pos name value).getMap = some R')
+    (hab : S.apply A' da = .ok dab) (hba : S.apply R' db = .ok dba) :
+    ftoks dab.kids = ftoks dba.kids ∧
+    (fnorm dab.kids = true → fnorm dba.kids = true → dab = dba) :=
+  commute_replace_nodeStep S d da db dab dba f t sl b pos _ A' R' (.inr (.inr ⟨name, value, rfl⟩))
+    hout ha hb hA' hR' hab hba
+
+/-- replace step vs. add-node-mark / remove-node-mark step -/
+theorem commute_replace_nodeMark (S : Schema) (d da db dab dba : Node) (f t : Nat) (sl : Slice)
+    (b : Bool) (pos : Nat) (mk : Mark) (A A' R' : Step)
+    (hA : A = .addNodeMark pos mk ∨ A = .removeNodeMark pos mk) (hout : pos < f ∨ t < pos)
+    (ha : S.apply (.replace f t sl b) d = .ok da) (hb : S.apply A d = .ok db)
+    (hA' : A.map (Step.replace f t sl b).getMap = some A')
+    (hR' : (Step.replace f t sl b).map A.getMap = some R')
+    (hab : S.apply A' da = .ok dab) (hba : S.apply R' db = .ok dba) :
+    ftoks dab.kids = ftoks dba.kids ∧
+    (fnorm dab.kids = true → fnorm dba.kids = true → dab = dba) :=
+  commute_replace_nodeStep S d da db dab dba f t sl b pos A A' R'
+    (by rcases hA with rfl | rfl
+        · exact .inl ⟨mk, rfl⟩
+        · exact .inr (.inl ⟨mk, rfl⟩))
+    hout ha hb hA' hR' hab hba
+
+/-- **guard of the add-mark clause**: every inline atom (text unit, inline leaf, inline atom
+    element) with index in the mark step's range `[lo, hi)` has an enclosing node of the same
+    *type* in `da` — the document after the replace step, where the token sits at
+    `lo' + (i - lo)` — as in `d`.  Decidable on the two token sequences. -/
+def ParentStable (S : Schema) (d da : Node) (lo hi lo' : Nat) : Prop :=
+  ∀ i, i < hi → lo ≤ i → isAtomTok S ((ftoks d.kids).getD i Tok.cl) = true →
+    (ctxOf (S.tyOf d) (ftoks da.kids)).getD (lo' + (i - lo)) 0 =
+      (ctxOf (S.tyOf d) (ftoks d.kids)).getD i 0
+
+instance (S : Schema) (d da : Node) (lo hi lo' : Nat) : Decidable (ParentStable S d da lo hi lo') := by
+  unfold ParentStable; infer_instance
+
+/-- the guard holds where parents are kept: in `<p>a</p><p>b</p>`, inserting "c" after "a" leaves
+    the unit "b" (old index 4, new index 5) in a paragraph -/
+example : ParentStable ⟨#[], #[], 0, 0⟩
+    (.elem 0 [] [] [.elem 1 [] [] [.text [97] []], .elem 1 [] [] [.text [98] []]])
+    (.elem 0 [] [] [.elem 1 [] [] [.text [97, 99] []], .elem 1 [] [] [.text [98] []]]) 4 5 5 := by
+  intro i h1 h2 _
+  have : i = 4 := by omega
+  subst this
+  simp [ftoks, Node.toks, ctxOf, ctxAux, Schema.tyOf, Node.tyOr, Node.kids]
+
+/-- … and fails on the known counterexample (types: 1 ul, 2 li, 3 paragraph, 4 code_block):
+    `ul(li(p(), code_block("de")))`, `replace 1..5` with `<li(p())>(0,2)` moves "e" (old index 6,
+    new index 4) from the code block into the paragraph -/
+example : ¬ ParentStable ⟨#[], #[], 0, 0⟩
+    (.elem 0 [] [] [.elem 1 [] [] [.elem 2 [] [] [.elem 3 [] [] [], .elem 4 [] [] [.text [100, 101] []]]]])
+    (.elem 0 [] [] [.elem 1 [] [] [.elem 2 [] [] [.elem 3 [] [] [.text [100, 101] []]]]]) 6 7 4 := by
+  intro h
+  have := h 6 (by omega) (by omega) (by simp [ftoks, Node.toks, Node.kids, isAtomTok])
+  simp [ftoks, Node.toks, ctxOf, ctxAux, Schema.tyOf, Node.tyOr, Node.kids] at this
+
+/-- **replace step vs. add-mark step after the replaced range, under `ParentStable`**: whenever all
+    four applications succeed, both orders give the same tokens / document.  Without the guard the
+    statement is false (DESIGN.md §5 C17: `replace 1..5` re-types the code block holding the marked
+    text into a paragraph). -/
+-- FULL STATEMENT (false in the reference implementation too): the same without `hstable`.
+theorem commute_replace_mark_partial (S : Schema) (d da db dab dba : Node) (f t : Nat) (sl : Slice)
+    (b : Bool) (f2 t2 f2' t2' : Nat) (mk : Mark) (R' : Step) (hle : f2 ≤ t2) (hsep : t < f2)
+    (ha : S.apply (.replace f t sl b) d = .ok da) (hb : S.apply (.addMark f2 t2 mk) d = .ok db)
+    (hM' : (Step.addMark f2 t2 mk).map (Step.replace f t sl b).getMap = some (.addMark f2' t2' mk))
+    (hR' : (Step.replace f t sl b).map (Step.addMark f2 t2 mk).getMap = some R')
+    (hab : S.apply (.addMark f2' t2' mk) da = .ok dab) (hba : S.apply R' db = .ok dba)
+    (hstable : ParentStable S d da f2 t2 f2') :
+    ftoks dab.kids = ftoks dba.kids ∧
+    (fnorm dab.kids = true → fnorm dba.kids = true → dab = dba) := by
+  have hsp : (Step.addMark f2 t2 mk).posSpan = some (f2, t2) := rfl
+  have kfa := apply_replace_fromReplace S d da f t sl b ha
+  obtain ⟨hda, hft, htl, hwf, _⟩ := fromReplace_toks S d da f t sl kfa
+  obtain ⟨hlen, hs0⟩ := Slice.toks_length_of_wf sl hwf
+  have hmapped := (rebase_markup_not_dropped _ f2 t2 hsp hle f t sl b hft).2 hsep
+  rw [hmapped] at hM'
+  simp only [Step.mapPos, Option.some.injEq, Step.addMark.injEq, and_true] at hM'
+  have hf2' : f2' = f + sl.toks.length + (f2 - t) := by omega
+  obtain ⟨e1, e2, e3⟩ := commute_replace_markup_after S d da db dab dba f t sl b _ _ R' f2 t2
+    hsp hle hsep ha hb hmapped hR' (by simpa [Step.mapPos, hM'.1, hM'.2] using hab) hba t2 rfl
+    (fun i tok g1 g2 g3 => by
+      show addTok S mk _ tok = addTok S mk _ tok
+      have htok : (ftoks d.kids).getD i Tok.cl = tok := by
+        rw [List.getD_eq_getElem?_getD, g3]; rfl
+      by_cases hat : isAtomTok S tok = true
+      · have := hstable i g2 g1 (by rw [htok]; exact hat)
+        rw [show f2' + (i - f2) = f + sl.toks.length + (i - t) by omega] at this
+        rw [this]
+      · simp [addTok, hat])
+  refine ⟨e3, fun hn1 hn2 => ?_⟩
+  subst e2
+  obtain ⟨ty, a, m, k1, k2, r1, r2⟩ := square_roots S d da db dab dba f t sl b _ (.addMark f2' t2' mk)
+    f2 t2 f2' t2' rfl ha hab hba hb hsp
+  exact docs_eq_of_toks dab dba ty a m k1 k2 r1 r2 e3 hn1 hn2
+
+/-- **replace step vs. mark step before the replaced range, and vs. remove-mark step anywhere
+    outside it**: no guard needed (the enclosing nodes of earlier tokens cannot change; removing a
+    mark does not look at the enclosing node) -/
+theorem commute_replace_mark_unguarded (S : Schema) (d da db dab dba : Node) (f t : Nat) (sl : Slice)
+    (b : Bool) (f2 t2 : Nat) (mk : Mark) (M M' R' : Step) (hle : f2 ≤ t2)
+    (hM : (M = .addMark f2 t2 mk ∧ t2 < f) ∨ (M = .removeMark f2 t2 mk ∧ (t2 < f ∨ t < f2)))
+    (ha : S.apply (.replace f t sl b) d = .ok da) (hb : S.apply M d = .ok db)
+    (hM' : M.map (Step.replace f t sl b).getMap = some M')
+    (hR' : (Step.replace f t sl b).map M.getMap = some R')
+    (hab : S.apply M' da = .ok dab) (hba : S.apply R' db = .ok dba) :
+    ftoks dab.kids = ftoks dba.kids ∧
+    (fnorm dab.kids = true → fnorm dba.kids = true → dab = dba) := by
+  have hsp : M.posSpan = some (f2, t2) := by rcases hM with ⟨rfl, _⟩ | ⟨rfl, _⟩ <;> rfl
+  have key : ∃ g, M' = M.mapPos g ∧ R' = .replace f t sl false ∧ ftoks dab.kids = ftoks dba.kids := by
+    have before : t2 < f → ∃ g, M' = M.mapPos g ∧ R' = .replace f t sl false ∧
+        ftoks dab.kids = ftoks dba.kids := by
+      intro h
+      obtain ⟨e1, e2, e3⟩ := commute_replace_markup_before S d da db dab dba f t sl b M M' R' f2 t2
+        hsp hle h ha hb hM' hR' hab hba
+      exact ⟨id, by rw [e1]; exact (Step.mapPos_id _ id (fun _ => rfl)).symm, e2, e3⟩
+    rcases hM with ⟨rfl, h⟩ | ⟨rfl, h | h⟩
+    · exact before h
+    · exact before h
+    · obtain ⟨e1, e2, e3⟩ := commute_replace_markup_after S d da db dab dba f t sl b _ M' R' f2 t2
+        hsp hle h ha hb hM' hR' hab hba t2 rfl (fun i tok _ _ _ => rfl)
+      exact ⟨_, e1, e2, e3⟩
+  obtain ⟨g, e1, e2, e3⟩ := key
+  refine ⟨e3, fun hn1 hn2 => ?_⟩
+  subst e1 e2
+  obtain ⟨ty, a, m, k1, k2, r1, r2⟩ := square_roots S d da db dab dba f t sl b M _ f2 t2 _ _
+    (posSpan_mapPos M g f2 t2 hsp) ha hab hba hb hsp
+  exact docs_eq_of_toks dab dba ty a m k1 k2 r1 r2 e3 hn1 hn2
+
+/-! ### two markup steps -/
+
+/-- **two markup steps (mark, node-mark, attr, doc-attr) on disjoint token windows commute**: both
+    have the empty map, rebasing leaves them unchanged, and both orders give the same tokens.
+    `Step.touch` = `[from, to)` of a mark step, `[pos, pos+1)` of a node-mark / attr step, `[0, 0)` of
+    a doc-attr step. -/
+theorem commute_markup_markup (S : Schema) (d da db dab dba : Node) (A B A' B' : Step)
+    (a1 a2 b1 b2 : Nat) (hta : A.touch = some (a1, a2)) (htb : B.touch = some (b1, b2))
+    (hd : a2 ≤ b1 ∨ b2 ≤ a1)
+    (ha : S.apply A d = .ok da) (hb : S.apply B d = .ok db)
+    (hB' : B.map A.getMap = some B') (hA' : A.map B.getMap = some A')
+    (hab : S.apply B' da = .ok dab) (hba : S.apply A' db = .ok dba) :
+    A' = A ∧ B' = B ∧ ftoks dab.kids = ftoks dba.kids :=
+  commute_markup_core S d da db dab dba A B A' B' a1 a2 b1 b2 hta htb hd ha hb hB' hA' hab hba
+
+/-- … hence equal documents, for mark / node-mark / attr steps (normal form) -/
+theorem commute_markup_markup_docs (S : Schema) (d da db dab dba : Node) (A B A' B' : Step)
+    (a1 a2 b1 b2 pa1 pa2 pb1 pb2 : Nat) (hta : A.touch = some (a1, a2)) (htb : B.touch = some (b1, b2))
+    (hpa : A.posSpan = some (pa1, pa2)) (hpb : B.posSpan = some (pb1, pb2))
+    (hd : a2 ≤ b1 ∨ b2 ≤ a1)
+    (ha : S.apply A d = .ok da) (hb : S.apply B d = .ok db)
+    (hB' : B.map A.getMap = some B') (hA' : A.map B.getMap = some A')
+    (hab : S.apply B' da = .ok dab) (hba : S.apply A' db = .ok dba)
+    (hn1 : fnorm dab.kids = true) (hn2 : fnorm dba.kids = true) : dab = dba := by
+  obtain ⟨rfl, rfl, e3⟩ := commute_markup_core S d da db dab dba A B A' B' a1 a2 b1 b2 hta htb hd
+    ha hb hB' hA' hab hba
+  obtain ⟨ty, a, m, k, ka, rfl, rfl⟩ := apply_markup_root S d da A' pa1 pa2 hpa ha
+  obtain ⟨ty2, a2', m2, k2, kb, e, rfl⟩ := apply_markup_root S _ db B' pb1 pb2 hpb hb
+  cases e
+  obtain ⟨ty3, a3, m3, k3, kab, e, rfl⟩ := apply_markup_root S _ dab B' pb1 pb2 hpb hab
+  cases e
+  obtain ⟨ty4, a4, m4, k4, kba, e, rfl⟩ := apply_markup_root S _ dba A' pa1 pa2 hpa hba
+  cases e
+  exact docs_eq_of_toks _ _ _ _ _ _ _ rfl rfl e3 hn1 hn2
 
 end PM.C17
